@@ -117,6 +117,8 @@ pub fn c03_build(raw: &Raw, _tier: Tier, _sched: bool) -> Scenario {
     o.pols = &POLS_MOSTLY_BLOCK;
     o.runtime_add = true;
     o.unsubs = true;
+    // Keep / Dispatch answers that also carry an effect (the effect must not change the decision)
+    o.effects = true;
     gen_pipeline(raw, &o)
 }
 
